@@ -844,4 +844,92 @@ def extract_default(""")]),
     for kwarg_name in params_to_append:
         intermediate_repr["params"].move_to_end(kwarg_name)
 """)]),
+    # ------------------------------------------------------------------ round 4 additions
+    dict(id="strmember-missing-comma", kind=B, props=["C03", "C12"], expect="STR-MEMBER", edits=[("ast_utils.py",
+         """    elif function_def.args.args[0].arg in frozenset(("self", "cls")):""",
+         """    elif function_def.args.args[0].arg in ("self" "cls"):""")]),
+    dict(id="strmember-tuple-is-fine", kind=N, props=["C03", "C12"], expect="silent", edits=[("ast_utils.py",
+         """    elif function_def.args.args[0].arg in frozenset(("self", "cls")):""",
+         """    elif function_def.args.args[0].arg in ("self", "cls"):""")]),
+    dict(id="ordermerge-popitem", kind=B, props=["C07", "C08"], expect="ORDER-merge", edits=[("parser_utils.py",
+         """        for name in tuple(
+            filter(lambda key: key not in target_params, other_params.keys())
+        ):
+            target_params[name] = other_params[name]""",
+         """        while other_params:
+            name, other_param = other_params.popitem()
+            if name not in target_params:
+                target_params[name] = other_param""")]),
+    dict(id="ordermerge-popitem-first", kind=N, props=["C07", "C08"], expect="silent", edits=[("parser_utils.py",
+         """        for name in tuple(
+            filter(lambda key: key not in target_params, other_params.keys())
+        ):
+            target_params[name] = other_params[name]""",
+         """        remaining = OrderedDict(other_params)
+        while remaining:
+            name, other_param = remaining.popitem(last=False)
+            if name not in target_params:
+                target_params[name] = other_param""")]),
+    dict(id="latebind-lambda-list", kind=B, props=["C07", "C12"], expect="LATE-BIND", edits=[("parser_utils.py",
+         """        for name in tuple(
+            filter(lambda key: key not in target_params, other_params.keys())
+        ):
+            target_params[name] = other_params[name]""",
+         """        fillers = [
+            lambda: target_params.__setitem__(name, other_params[name])
+            for name in other_params
+            if name not in target_params
+        ]
+        for filler in fillers:
+            filler()""")]),
+    dict(id="latebind-default-bound", kind=N, props=["C07", "C12"], expect="silent", edits=[("parser_utils.py",
+         """        for name in tuple(
+            filter(lambda key: key not in target_params, other_params.keys())
+        ):
+            target_params[name] = other_params[name]""",
+         """        fillers = [
+            lambda name=name: target_params.__setitem__(name, other_params[name])
+            for name in other_params
+            if name not in target_params
+        ]
+        for filler in fillers:
+            filler()""")]),
+    dict(id="shareddefault-returned", kind=B, props=["C12"], expect="SHARED-DEFAULT", edits=[("parser_utils.py",
+         """def _join_non_none(primacy, other):""",
+         """def _fresh_returns(returns=OrderedDict((("return_type", {}),))):
+    \"\"\"
+    :param returns: the skeleton
+    :type returns: ```OrderedDict```
+
+    :returns: the skeleton
+    :rtype: ```OrderedDict```
+    \"\"\"
+    return returns
+
+
+def _join_non_none(primacy, other):""")]),
+    dict(id="file2b-update-mode", kind=B, props=["C09", "C11"], expect="FILE-2b", edits=[("conformance.py",
+         """            emit.file(parsed_ast, filename, mode="wt", skip_black=False)""",
+         """            emit.file(parsed_ast, filename, mode="r+", skip_black=False)""")]),
+    dict(id="file3-render-error-swallowed", kind=B, props=["C20", "C11"], expect="FILE-3", edits=[("emit.py",
+         """    src = to_code(node)
+    if not skip_black:""", """    try:
+        src = to_code(node)
+    except RecursionError:
+        pass
+    if not skip_black:""")]),
+    dict(id="file2d-test-on-raw-path", kind=B, props=["C09", "C10", "C11"], expect="FILE-2d", edits=[("conformance.py",
+         """    filename = path.realpath(path.expanduser(filename))
+""", """    is_there = path.isfile(filename)
+    filename = path.realpath(path.expanduser(filename))
+"""), ("conformance.py", """    if not path.isfile(filename):""", """    if not is_there:""")]),
+    dict(id="file5c-read-through-append-handle", kind=B, props=["C06", "C09"], expect="FILE-5", edits=[("emit.py",
+         """        with open(filename, "rt") as f:
+            existing_src = f.read()""", """        with open(filename, "a+") as f:
+            existing_src = f.read()""")]),
+    dict(id="file5c-seek-first", kind=N, props=["C06", "C09"], expect="silent", edits=[("emit.py",
+         """        with open(filename, "rt") as f:
+            existing_src = f.read()""", """        with open(filename, "rt") as f:
+            f.seek(0)
+            existing_src = f.read()""")]),
 ]
